@@ -291,7 +291,11 @@ func c16Work(w *h.W) {
 // in any internal representation, with any spare capacity), and TWO calls extend the same list with
 // both answers kept: an answer must not change when a later call runs.
 func c16Chains(w *h.W) {
-	elems := []string{"a", "b", "c", "d", "e", "f", "g", "h", "i", "j"}
+	raw := []string{"a", "é", "c", "日", "e", "f", "g", "h", "i", "j"}
+	elems := make([]string, len(raw))
+	for i, r := range raw {
+		elems[i] = ref.QuoteAtom(r)
+	}
 	producers := []func(n int) string{
 		func(n int) string { return "L = [" + strings.Join(elems[:n], ", ") + "]" },
 		func(n int) string {
@@ -309,7 +313,7 @@ func c16Chains(w *h.W) {
 			return "sort([" + strings.Join(rev, ", ") + "], L)"
 		},
 		func(n int) string { return "T0 =.. [k" + strings.Repeat(", z", 0) + strings.Join(append([]string{""}, elems[:n]...), ", ") + "], T0 =.. [_|L]" },
-		func(n int) string { return "atom_chars('" + strings.Join(elems[:n], "") + "', L)" },
+		func(n int) string { return "atom_chars('" + strings.Join(raw[:n], "") + "', L)" },
 		func(n int) string { return "copy_term([" + strings.Join(elems[:n], ", ") + "], L)" },
 		func(n int) string { return fmt.Sprintf("length(L, %d)", n) },
 		func(n int) string {
@@ -322,7 +326,7 @@ func c16Chains(w *h.W) {
 		func(n int) string {
 			return "findall(E, member(E, [" + strings.Join(elems[:n], ", ") + "]), L0), append(L0, [z], L)"
 		},
-		func(n int) string { return "atom_codes('" + strings.Join(elems[:n], "") + "', L)" },
+		func(n int) string { return "atom_codes('" + strings.Join(raw[:n], "") + "', L)" },
 		func(n int) string {
 			if n == 0 {
 				return "L = []"
